@@ -6,6 +6,7 @@ import (
 	"encoding/hex"
 	"encoding/json"
 	"fmt"
+	"math"
 	mrand "math/rand"
 	"net"
 	"net/netip"
@@ -62,10 +63,11 @@ type sessCfg struct {
 	NomStep    uint32                 `json:"nomStep"`
 	Lite       map[string]bool        `json:"lite"`
 	CheckPrio  map[string]bool        `json:"checkPrio"`
-	TCPRemote  bool                   `json:"tcpRemote"`   // x9 is known to both agents as a TCP remote candidate
-	RFilter    map[string][]string    `json:"rfilter"`     // remote addresses (symbolic) an agent's remote IP filter rejects
-	TCPActive  bool                   `json:"tcpActive"`   // a TCP-active remote candidate is signalled to both agents during set-up (it must be ignored)
-	LiteDef    map[string]bool        `json:"liteDefault"` // the lite agent keeps its default disconnected timeout (no explicit option)
+	TCPRemote  bool                   `json:"tcpRemote"`     // x9 is known to both agents as a TCP remote candidate
+	RFilter    map[string][]string    `json:"rfilter"`       // remote addresses (symbolic) an agent's remote IP filter rejects
+	TCPActive  bool                   `json:"tcpActive"`     // a TCP-active remote candidate is signalled to both agents during set-up (it must be ignored)
+	ForgeRole  bool                   `json:"forgeConflict"` // forged requests may carry the receiver's own role (a peer that misbehaves mid-session)
+	LiteDef    map[string]bool        `json:"liteDefault"`   // the lite agent keeps its default disconnected timeout (no explicit option)
 	Walk       walkCfg                `json:"walk"`
 	Tr         trCfg                  `json:"tr"`
 }
@@ -791,7 +793,25 @@ func runSession(t *testing.T, cfg *sessCfg, job *sessJob, rng *mrand.Rand, sched
 			mm.Src = sym(x.Dst)
 			mm.Key = [2]any{peer, S[b].rgen}
 		}
+		if cfg.ForgeRole && rng.Intn(2) == 0 {
+			// peer misbehaviour in the middle of a session: a request that carries the receiver's own role, mostly one that
+			// passes authentication, with a tie-breaker below, equal to or above the receiver's
+			mm.Kind, mm.RoleA = "req", ps.Role
+			mm.Tbc = rng.Intn(3) - 1
+			if rng.Intn(4) != 0 {
+				mm.User, mm.Key = [2]int{S[b].gen, S[b].rgen}, [2]any{b, S[b].gen}
+			}
+			if known := srcs[1:]; len(known) > 0 && rng.Intn(4) != 0 {
+				mm.Src = known[rng.Intn(len(known))]
+			}
+		}
 		if want != nil { // schedule replay: the model chose the message
+			if v, ok := want["rolea"].(string); ok {
+				mm.RoleA = v
+			}
+			if v, ok := want["tbc"].(float64); ok {
+				mm.Tbc = int(v)
+			}
 			mm.Kind, _ = want["kind"].(string)
 			mm.Src, _ = want["src"].(string)
 			mm.UC, _ = want["uc"].(bool)
@@ -869,10 +889,18 @@ func runSession(t *testing.T, cfg *sessCfg, job *sessJob, rng *mrand.Rand, sched
 		if mm.UC {
 			setters = append(setters, ice.UseCandidate())
 		}
+		// tbc = sign(receiver's tie-breaker - sender's); at the ends of the range the nearest feasible value is taken
+		if mm.Tbc > 0 && S[b].tb == 0 {
+			mm.Tbc = 0
+		}
+		if mm.Tbc < 0 && S[b].tb == math.MaxUint64 {
+			mm.Tbc = 0
+		}
+		ftb := S[b].tb - uint64(mm.Tbc) //nolint:gosec // -1 wraps to +1
 		if mm.RoleA == "controlling" {
-			setters = append(setters, ice.AttrControlling(S[b].tb-1))
+			setters = append(setters, ice.AttrControlling(ftb))
 		} else {
-			setters = append(setters, ice.AttrControlled(S[b].tb-1))
+			setters = append(setters, ice.AttrControlled(ftb))
 		}
 		setters = append(setters, ice.PriorityAttr(2130706431), stun.NewShortTermIntegrity(pw), stun.Fingerprint)
 		msg, err := stun.Build(setters...)
